@@ -16,6 +16,7 @@ import MakoModel.Paths8.Drv
 import MakoModel.Names.Drv
 import MakoModel.ModFile.Drv
 import MakoModel.PyExpr.Drv
+import MakoModel.Control.Drv
 /-! Dispatch table of the driver: one line per model area (`op prefix`, handler). -/
 namespace Driver
 open MakoModel
@@ -38,6 +39,7 @@ def table : List (String × Wire.Handler) :=
   , ("names", Names.Drv.handle)
   , ("modfile", ModFile.Drv.handle)
   , ("py", PyExpr.Drv.handle)
+  , ("ctl", Control.Drv.handle)
   ]
 
 end Driver
